@@ -41,8 +41,15 @@ def main():
         a = sh(["git", "-C", "/repo", "apply", os.path.join(d, "patch.diff")])
         assert a.returncode == 0, (name, a.stderr)
         res = dict(meta.get("checks_quick", {}))
+        lazy = "--lazy" in sys.argv  # primary first; the other candidates only if the primary stays silent
+        if lazy:
+            checks = [meta["property"]] + [c for c in checks if c != meta["property"]]
+            res = {}  # only results of the current machinery are kept
         try:
             for c in checks:
+                if lazy and c != meta["property"] and res.get(meta["property"], {}).get("rc") == 1 \
+                        and res.get(meta["property"], {}).get("machinery") == head:
+                    continue
                 t = time.time()
                 p = sh([os.path.join(VERIF, "check"), c, "--tier", "quick"], timeout=7200)
                 lines = [l for l in p.stdout.splitlines() if l.startswith(("VIOLATION", "violation key", "HARNESS", "FLAKY"))]
@@ -53,7 +60,7 @@ def main():
         meta["checks_quick"] = res
         meta["detected_by"] = sorted(c for c, v in res.items() if v["rc"] == 1)
         json.dump(meta, open(os.path.join(d, "meta.json"), "w"), indent=1)
-        print(name, {c: res[c]["rc"] for c in checks}, flush=True)
+        print(name, {c: res[c]["rc"] for c in checks if c in res}, flush=True)
     write_results()
 
 
